@@ -107,7 +107,7 @@ Ctr(st, op) ==
     [] op.k = "chunk" -> Add(c, op.n)
     [] op.k = "bnext" -> Add(c, st.buf)
     [] op.k \in {"foreach", "eforeach", "fold"} -> IF op.n = Zero THEN c ELSE Add(Add(c, rem), op.n)
-    [] op.k = "skip" -> IF Lt(c, st.end) /\ st.base = st.start /\ st.start # Zero THEN st.end ELSE (IF Lt(c, st.len) THEN st.len ELSE c)
+    [] op.k = "skip" -> IF Lt(c, st.len) THEN st.len ELSE c        \* skip_to_end moves the counter to the length (an index, never a value)
     [] OTHER -> c
 Wrapped(st) == ~Fits(st.ctr)
 
